@@ -84,12 +84,15 @@ def make_tree(i, rooted, ns):
     return t
 
 
-def new_array(ns, spec):
+def new_array(ns, spec, ages=False):
+    if ages:
+        # node ages collected too (non-default option); the sample is not ultrametric, so the check is off
+        return dendropy.TreeArray(taxon_namespace=ns, is_rooted_trees=spec, ignore_node_ages=False, ultrametricity_precision=False)
     return dendropy.TreeArray(taxon_namespace=ns, is_rooted_trees=spec)
 
 
-def build_part(ns, idxs, rooted, spec, bop):
-    ta = new_array(ns, spec)
+def build_part(ns, idxs, rooted, spec, bop, ages=False):
+    ta = new_array(ns, spec, ages)
     trees = [make_tree(i, rooted, ns) for i in idxs]
     if bop == "add_tree":
         for t in trees:
@@ -109,17 +112,18 @@ def merge_case(case, ctx):
     k, rooted, implicit = case["k"], case["rooted"], case["implicit"]
     spec = None if implicit else rooted
     assign, perm, mop, bop, base = case["assign"], case["perm"], case["mop"], case["bop"], case["base"]
+    ages = case.get("ages", False)
     ns = dendropy.TaxonNamespace(LABELS)
-    serial = new_array(ns, rooted)
+    serial = new_array(ns, rooted, ages)
     for i in range(k):
         serial.add_tree(make_tree(i, rooted, ns))
     want, wp = H.summary(serial)
     parts = [[i for i in range(k) if assign[i] == p] for p in range(3)]
-    arrays = [build_part(ns, parts[p], rooted, spec, bop) for p in range(3)]
+    arrays = [build_part(ns, parts[p], rooted, spec, bop, ages) for p in range(3)]
     order = [arrays[p] for p in perm]
     sizes = [len(parts[p]) for p in perm]
     if base == "fresh":
-        target = new_array(ns, spec)
+        target = new_array(ns, spec, ages)
         todo = list(zip(order, sizes))
         tsize = 0
     else:
@@ -148,7 +152,7 @@ def merge_case(case, ctx):
     for p in range(3):
         if arrays[p] is target:
             continue
-        alone = new_array(ns, rooted)
+        alone = new_array(ns, rooted, ages)
         for i in parts[p]:
             alone.add_tree(make_tree(i, rooted, ns))
         wa, _ = H.summary(alone, with_queries=False)
@@ -304,7 +308,8 @@ def chunks_A(tier):
         for rooted in (True, False):
             for implicit in (False, True):
                 for mop in b["A_merge_ops"]:
-                    out.append({"part": "A", "k": k, "rooted": rooted, "implicit": implicit, "mop": mop})
+                    for ages in (False, True):
+                        out.append({"part": "A", "k": k, "rooted": rooted, "implicit": implicit, "mop": mop, "ages": ages})
     return out
 
 
@@ -316,8 +321,8 @@ def run_A(chunk, ctx):
             for bop in ("add_tree", "append", "insert0", "add_trees"):
                 for base in ("fresh", "first"):
                     case = {"kind": "merge", "k": k, "rooted": chunk["rooted"], "implicit": chunk["implicit"], "assign": list(assign),
-                            "perm": list(perm), "mop": chunk["mop"], "bop": bop, "base": base}
-                    ctx.case(("merge", k, chunk["rooted"], chunk["implicit"], assign, perm, chunk["mop"], bop, base),
+                            "perm": list(perm), "mop": chunk["mop"], "bop": bop, "base": base, "ages": chunk.get("ages", False)}
+                    ctx.case(("merge", k, chunk["rooted"], chunk["implicit"], assign, perm, chunk["mop"], bop, base, chunk.get("ages", False)),
                              nontrivial=len(set(assign)) >= 2)
                     ctx.count("A_merge_histories")
                     ctx.count("transitions")
